@@ -20,6 +20,12 @@ CHECKS = {
  "C05": ("exploration", "reference-model monitor cell by cell against values planted by an independent EXH/EXD builder; direct buffers and archive route",
          "Every cell of every stored (sub-)row is compared with the planted value for all 19 column types incl. shared packed-bool bytes, NaN payloads, extreme integers, long strings and large sub-row tables; names/pages/languages are resolved through a generated archive as well.",
          "EXH/EXD layout as in Lumina; single-sub-row sheets not generated"),
+ "C06": ("exploration", "reference-model monitor: independent MDL builder + typed reference decoders with per-component accept sets",
+         "Random models over both format versions, all reader-supported (usage,type) pairs, 1..3 streams, arbitrary offsets/strides and buffer bytes, plus sweeps over all 65536 half patterns and all byte values, are parsed by the real library and every vertex component, index, sub-mesh range, raw stream, name and shape delta is compared with the reference decoding.",
+         "MDL layout as documented; listed leniencies where sources disagree on a numeric meaning"),
+ "C07": ("exploration", "round-trip identity monitor + codec sweep + structural-invariant monitor on written bytes (independent Python MDL parser) + geometry monitor after edit histories on a live handle",
+         "Unedited canonical models must re-read dump-equal with byte-identical vertex/index sections; after every step of random edit histories (replace / remove_shape_meshes / add_shape_mesh) the written bytes are walked by an independent parser (disjoint, in-bounds, correctly sized sections) and re-parsed geometry is compared with the planted canonical streams.",
+         "v5 only; unsupported encoders are listed known findings"),
  "C08": ("exploration", "model-equality monitor after every call of parse/write/set_value/has_* histories on live handles",
          "The Python model (list of categories/entries) is compared with the library's observable state after every call of random edit histories, and canonical text is compared byte for byte in both directions; exploration over random grammars incl. empty categories, duplicate keys and multi-byte text.",
          "canonical grammar as stated in the property"),
